@@ -517,7 +517,21 @@ def check_C05(history):
                             o["end"] is not None and ev["seq"] < o["end"]["seq"] < st["seq"] and o["status"] == "PASS"
                             and any(s_["obj"] == r["obj"] and s_["state"] == r["state"] for s_ in o["start"]["sets"])
                             for o in execs)
-                        if not reproduced:
+                        narrowed = not {"swarm", "cluster"} <= set(node_scope.split())
+                        lazy = history["scenario"].get("mode", "lazy") != "eager"
+                        expanded_before = any(
+                            o["start"]["cls"] == st["cls"] and o["start"]["seq"] < ev["seq"] and
+                            scope_key({"pool_scope": node_scope, "worker": o["start"]["worker"], "spawner": o["start"].get("spawner")}) == my_scope
+                            for o in execs)
+                        if not reproduced and narrowed and lazy and not expanded_before:
+                            # known defect: the reversal is postponed only while a test is unexpanded for ALL workers;
+                            # with separate reuse scopes a scope may not have expanded its own dependant yet
+                            out.append(V("C05", "unset-before-dependant/unexpanded-in-narrowed-scope",
+                                         f"removal of state {r['state']} of {vm_os} was requested before this reuse scope had expanded "
+                                         f"and run its own dependant (lazy parsing, narrowed pool scope)",
+                                         seq=ev["seq"], by=ev["worker"], dependant=st["label"], on=st["worker"],
+                                         dependant_seq=st["seq"], scope=node_scope))
+                        elif not reproduced:
                             out.append(V("C05", "unset-before-dependant",
                                          f"removal of state {r['state']} of {vm_os} was requested before a dependant started",
                                          seq=ev["seq"], by=ev["worker"], dependant=st["label"], on=st["worker"],
